@@ -33,7 +33,7 @@ static int c15_main(int argc,char **argv){
     int n=split(line,tok,16);
     if(n==0){ free(line); continue; }
     if(!strcmp(tok[0],"case")){
-      printf("== case %s\n",n>1?tok[1]:"?"); fflush(stdout);
+      printf("== case %s\n",n>1?tok[1]:"?"); fflush(stdout); case_watchdog();
       if(c15_live){ vorbis_info_clear(&c15vi); vorbis_info_clear(&c15vi); }
       vorbis_info_init(&c15vi); c15_live=1;
     }else if(!strcmp(tok[0],"live")){
